@@ -67,6 +67,11 @@ var w5Big = func() []byte {
 func (w *w4) setupLFS() {
 	w.s3 = sims3.New("s3", w.cfg("s3_lat_us", 500))
 	w.s3api = newW5S3(w.s3)
+	if chunk := w.cfg("lfs_chunk", 5<<20); chunk < w.s3api.minPart {
+		// the simulated S3 keeps its rule "every part but the last has the minimum size" but scales the
+		// minimum with the configured chunk size, so that multipart uploads of small values can succeed
+		w.s3api.minPart = chunk
+	}
 	var backends []string
 	for _, b := range w.brokers {
 		backends = append(backends, b.addr)
@@ -306,6 +311,13 @@ func (w *w4) buildLFSProduce(id, seq int, op simrt.Op, rr *rand.Rand, q *w4req) 
 				nrec := 1 + rr.IntN(4)
 				for ri := 0; ri < nrec; ri++ {
 					rec := kbatch.Record{OffsetDelta: int32(ri), TsDelta: int64(rr.IntN(50))}
+					switch rr.IntN(12) {
+					case 0:
+						// client-supplied timestamps weeks apart: the delta needs more than 32 bits
+						rec.TsDelta = int64(1)<<uint(31+rr.IntN(9)) + int64(rr.IntN(1000))
+					case 1:
+						rec.TsDelta = -int64(rr.IntN(5000))
+					}
 					switch rr.IntN(4) {
 					case 0:
 						rec.Key = nil
